@@ -4,7 +4,7 @@ use nom::{
 };
 use std::{
     fmt::{self, Display},
-    io,
+    io::{self, Read},
     marker::PhantomData,
     path::PathBuf,
 };
@@ -28,10 +28,25 @@ where
         input.read_exact(&mut buf)?;
         let index_header = IndexHeader::parse(&buf)?;
         // read rest of header (index + data portions)
-        let size_rest =
-            (index_header.data_section_size + index_header.num_entries * INDEX_ENTRY_SIZE) as usize;
-        let mut buf = vec![0; size_rest];
-        input.read_exact(&mut buf)?;
+        // the whole header (intro + index + data) has to fit the u32 arithmetic used for sizes
+        // and offsets, so reject intro fields that do not
+        let size_rest = index_header
+            .num_entries
+            .checked_mul(INDEX_ENTRY_SIZE)
+            .and_then(|index_size| index_size.checked_add(index_header.data_section_size))
+            .filter(|rest| rest.checked_add(INDEX_HEADER_SIZE).is_some())
+            .ok_or_else(|| {
+                io::Error::new(
+                    io::ErrorKind::InvalidData,
+                    "header index and data sizes overflow",
+                )
+            })? as usize;
+        // do not trust the declared size for the allocation: read at most that many bytes
+        let mut buf = Vec::new();
+        input.take(size_rest as u64).read_to_end(&mut buf)?;
+        if buf.len() != size_rest {
+            return Err(io::Error::from(io::ErrorKind::UnexpectedEof).into());
+        }
         Self::parse_header(index_header, &buf[..])
     }
 
